@@ -188,4 +188,82 @@ theorem extract_partition (b : Bytes) : (extract b).1.flatten ++ (extract b).2 =
     rw [ih]
     exact List.take_append_drop _ _
 
+/-! ### the send loop over an arbitrary schedule -/
+theorem getReq_setReq (s : State) (id : Nat) (f : Req → Req) (h : id < s.reqs.length) :
+    (s.setReq id f).getReq id = f (s.getReq id) := by
+  simp [State.getReq, State.setReq, List.getD_eq_getElem?_getD, h]
+
+theorem setReq_conns (s : State) (id : Nat) (f : Req → Req) : (s.setReq id f).conns = s.conns := rfl
+theorem setReq_reqs_length (s : State) (id : Nat) (f : Req → Req) : (s.setReq id f).reqs.length = s.reqs.length := by
+  simp [State.setReq]
+
+theorem logSent_reqs (s : State) (b : Bytes) : (logSent s b).reqs = s.reqs := by
+  unfold logSent; split <;> rfl
+
+theorem logSent_getReq (s : State) (b : Bytes) (id : Nat) : (logSent s b).getReq id = s.getReq id := by
+  simp [State.getReq, logSent_reqs]
+
+theorem logSent_flatten (s : State) (b : Bytes) : (logSent s b).conns.flatten = s.conns.flatten ++ b := by
+  unfold logSent
+  split
+  · rename_i h; have : s.conns = [] := by simpa using h
+    simp [this]
+  · rename_i last before h
+    have : s.conns = before.reverse ++ [last] := by
+      have := congrArg List.reverse h; simpa using this
+    simp [this]
+
+/-- **The send loop writes one contiguous piece of the head request**, whatever the schedule of
+partial sends and would-blocks: unless the connection is closed, the octets accepted by the
+socket during the loop are exactly the next `k` unsent octets of the request, and its sent
+count advances by `k`. -/
+theorem sendLoop_contiguous : ∀ (fuel : Nat) (sends : List SendRes) (s : State) (id : Nat), id < s.reqs.length →
+    (sendLoop fuel sends s id).2.2 ≠ .closed →
+    ∃ k, ((sendLoop fuel sends s id).1.getReq id).sent = (s.getReq id).sent + k ∧
+      ((sendLoop fuel sends s id).1.getReq id).raw = (s.getReq id).raw ∧
+      (sendLoop fuel sends s id).1.conns.flatten =
+        s.conns.flatten ++ ((s.getReq id).raw.drop (s.getReq id).sent).take k ∧
+      (sendLoop fuel sends s id).1.reqs.length = s.reqs.length
+  | 0, sends, s, id, _, _ => ⟨0, by simp [sendLoop]⟩
+  | fuel + 1, sends, s, id, hid, hnc => by
+    unfold sendLoop at hnc ⊢
+    simp only at hnc ⊢
+    split at hnc
+    · rename_i hlt
+      simp only [hlt, ↓reduceIte] at hnc ⊢
+      -- one accepted send of `c` octets, then the rest of the loop
+      have step : ∀ (c : Nat) (rest : List SendRes),
+          (sendLoop fuel rest ((logSent s (((s.getReq id).raw.drop (s.getReq id).sent).take c)).setReq id
+            fun q => { q with sent := q.sent + c }) id).2.2 ≠ .closed →
+          ∃ k, ((sendLoop fuel rest ((logSent s (((s.getReq id).raw.drop (s.getReq id).sent).take c)).setReq id
+              fun q => { q with sent := q.sent + c }) id).1.getReq id).sent = (s.getReq id).sent + k ∧
+            ((sendLoop fuel rest ((logSent s (((s.getReq id).raw.drop (s.getReq id).sent).take c)).setReq id
+              fun q => { q with sent := q.sent + c }) id).1.getReq id).raw = (s.getReq id).raw ∧
+            (sendLoop fuel rest ((logSent s (((s.getReq id).raw.drop (s.getReq id).sent).take c)).setReq id
+              fun q => { q with sent := q.sent + c }) id).1.conns.flatten =
+              s.conns.flatten ++ ((s.getReq id).raw.drop (s.getReq id).sent).take k ∧
+            (sendLoop fuel rest ((logSent s (((s.getReq id).raw.drop (s.getReq id).sent).take c)).setReq id
+              fun q => { q with sent := q.sent + c }) id).1.reqs.length = s.reqs.length := by
+        intro c rest hn
+        have hid1 : id < ((logSent s (((s.getReq id).raw.drop (s.getReq id).sent).take c)).setReq id
+            fun q => { q with sent := q.sent + c }).reqs.length := by
+          rw [setReq_reqs_length, logSent_reqs]; exact hid
+        have hid2 : id < (logSent s (((s.getReq id).raw.drop (s.getReq id).sent).take c)).reqs.length := by
+          rw [logSent_reqs]; exact hid
+        obtain ⟨k', h1, h2, h3, h4⟩ := sendLoop_contiguous fuel rest _ id hid1 hn
+        rw [getReq_setReq _ _ _ hid2, logSent_getReq] at h1 h2 h3
+        simp only at h1 h2 h3
+        refine ⟨c + k', by rw [h1]; omega, h2, ?_, by rw [h4, setReq_reqs_length, logSent_reqs]⟩
+        rw [h3, setReq_conns, logSent_flatten, List.append_assoc, List.take_add, List.drop_drop]
+      cases sends with
+      | nil => exact step _ [] hnc
+      | cons x rest =>
+        cases x with
+        | wouldBlock => exact ⟨0, by simp⟩
+        | error => simp at hnc
+        | accept k => exact step _ rest hnc
+    · rename_i hlt
+      simp only [hlt, ↓reduceIte]
+      exact ⟨0, by simp⟩
+
 end KsiVerif.Tcp
